@@ -10,6 +10,7 @@ import (
 	"sort"
 	"strings"
 	"sync"
+	"sync/atomic"
 	"time"
 
 	"verifharness/evidence"
@@ -86,6 +87,16 @@ type Plan struct {
 	Fault   string `json:"fault,omitempty"`    // close | rst | partial | stall
 	Partial int    `json:"partial,omitempty"`  // bytes written before closing (fault partial)
 	DelayMs int    `json:"delay_ms,omitempty"` // delay before replying
+	// BulkLen > 0: the reply is a bulk string of this length made by repeating BulkSeed (keeps case files small)
+	BulkLen  int `json:"bulk_len,omitempty"`
+	BulkSeed Bin `json:"bulk_seed,omitempty"`
+}
+
+// Phase is one step of a client that lets replies pile up: it reads Read bytes of what is waiting for it, then
+// sends its next Reqs requests.
+type Phase struct {
+	Read int `json:"read"`
+	Reqs int `json:"reqs"`
 }
 
 // Value scripts the stored value of a key for MGET (Null = absent).
@@ -102,6 +113,9 @@ type ClientSpec struct {
 	Cuts    []int  `json:"cuts,omitempty"`     // write sizes; the remainder is written last
 	PauseUs int    `json:"pause_us,omitempty"` // pause between writes
 	Src     string `json:"src,omitempty"`      // source IP
+	// Phases (with RcvBuf, the client's receive buffer): see runPhased
+	Phases []Phase `json:"phases,omitempty"`
+	RcvBuf int     `json:"rcvbuf,omitempty"`
 }
 
 // PipeSpec is a complete, serialisable description of one pipeline case.
@@ -121,6 +135,7 @@ type PipeSpec struct {
 	Migrating    []Mig      `json:"migrating,omitempty"`         // slot being migrated from Src (the owner) to Dst
 	Present      []Bin      `json:"present,omitempty"`           // keys of migrating slots that are still at the source
 	RedirDelayMs int        `json:"redirect_delay_ms,omitempty"` // redirection replies are sent this late (they can arrive after the request was completed otherwise)
+	RedirStagger int        `json:"redirect_stagger_ms,omitempty"` // the k-th redirection reply of the case is sent k times this much later still
 	DeadAddr     string     `json:"-"`
 	nonce        string
 }
@@ -161,12 +176,19 @@ func redirectLayer(f *Fixture, spec *PipeSpec, next fakecluster.Handler) fakeclu
 		}
 		return f.Cluster.Nodes[n].Addr
 	}
-	delay := time.Duration(spec.RedirDelayMs) * time.Millisecond
+	base := time.Duration(spec.RedirDelayMs) * time.Millisecond
+	var nredir int64
 	return func(req *fakecluster.Request) fakecluster.Action {
 		keys := keysOf(req.Name, req.Args)
 		if len(keys) == 0 {
 			return next(req)
 		}
+		delay := base
+		if spec.RedirStagger > 0 {
+			delay += time.Duration(atomic.LoadInt64(&nredir)) * time.Duration(spec.RedirStagger) * time.Millisecond
+		}
+		bump := func(a fakecluster.Action) fakecluster.Action { atomic.AddInt64(&nredir, 1); return a }
+		_ = bump
 		slot := refmodel.KeySlot(keys[0])
 		if m, ok := mig[slot]; ok {
 			switch {
@@ -182,7 +204,7 @@ func redirectLayer(f *Fixture, spec *PipeSpec, next fakecluster.Handler) fakeclu
 			}
 		}
 		if owner, ok := moved[slot]; ok && req.Node != owner {
-			return fakecluster.Action{Reply: []byte(fmt.Sprintf("-MOVED %d %s\r\n", slot, addr(owner))), Delay: delay}
+			return bump(fakecluster.Action{Reply: []byte(fmt.Sprintf("-MOVED %d %s\r\n", slot, addr(owner))), Delay: delay})
 		}
 		return next(req)
 	}
@@ -287,6 +309,15 @@ type planIndex struct {
 func indexPlans(spec *PipeSpec) *planIndex {
 	pi := &planIndex{plans: map[string]*Plan{}, values: map[string]*Value{}, stored: map[string][]byte{}}
 	for i := range spec.Plans {
+		if p := spec.Plans[i]; p.BulkLen > 0 && p.Reply == nil {
+			seed := p.BulkSeed
+			if len(seed) == 0 {
+				seed = Bin("x")
+			}
+			p.Reply = refmodel.Bulk(bytes.Repeat(seed, p.BulkLen/len(seed)+1)[:p.BulkLen])
+			pi.plans[string(p.Key)] = &p
+			continue
+		}
 		pi.plans[string(spec.Plans[i].Key)] = &spec.Plans[i]
 	}
 	for i := range spec.Values {
@@ -1013,6 +1044,80 @@ func runSlowReader(f *Fixture, spec *PipeSpec, want int) *PipeResult {
 	case <-time.After(20 * time.Second):
 		res.Clients[0].WriteErr = fmt.Errorf("client write did not finish within 20s")
 	}
+	c.WaitRepliesProgress(want, 10*time.Second, 300*time.Second)
+	return res.collect(f, []*rclient.Client{c})
+}
+
+// runPhased drives one client that lets its replies pile up in the proxy and consumes them in stages: in each
+// phase it first reads exactly Read bytes of the backlog, gives the proxy a moment to push more of what it
+// holds into the socket, then sends its next Reqs requests and waits until the backends have answered them.
+// At the end it reads everything. The byte stream it sees must be the replies in request order whatever part
+// of the backlog sat in which of the proxy's buffers when a later reply was appended.
+func runPhased(f *Fixture, spec *PipeSpec, want int) *PipeResult {
+	if os.Getenv("VERIF_TIMING") != "" {
+		t0 := time.Now()
+		defer func() {
+			tot := 0
+			for _, p := range spec.Plans {
+				tot += p.BulkLen
+			}
+			fmt.Printf("TIMING phased rcvbuf=%d backlog=%d phases=%d took=%dms\n", spec.Clients[0].RcvBuf, tot, len(spec.Clients[0].Phases), time.Since(t0).Milliseconds())
+		}()
+	}
+	pi := indexPlans(spec)
+	gates := &gateSet{}
+	gates.releaseAll()
+	f.Cluster.ResetLog()
+	f.Cluster.SetHandler(pi.handler(gates))
+	defer f.Cluster.SetHandler(nil)
+	abandon(f, spec.Abandoned)
+	res := &PipeResult{Clients: make([]ClientResult, 1)}
+	cs := &spec.Clients[0]
+	rcv := cs.RcvBuf
+	if rcv == 0 {
+		rcv = 16384
+	}
+	c, err := rclient.DialNoRead(f.Proxy.Addr(), rcv)
+	if err != nil {
+		res.Clients[0].WriteErr = err
+		return res
+	}
+	defer c.Close()
+	settle := func() {
+		stable, start, last := time.Now(), time.Now(), -1
+		for time.Since(stable) < 40*time.Millisecond && time.Since(start) < 3*time.Second {
+			n := 0
+			for _, r := range f.Cluster.Log() {
+				if !r.RepliedAt().IsZero() {
+					n++
+				}
+			}
+			if n != last {
+				last, stable = n, time.Now()
+			}
+			time.Sleep(2 * time.Millisecond)
+		}
+	}
+	next := 0
+	for _, ph := range cs.Phases {
+		if ph.Read > 0 {
+			c.ReadExactly(ph.Read, 3*time.Second)
+			time.Sleep(15 * time.Millisecond)
+		}
+		var batch []byte
+		for k := 0; k < ph.Reqs && next < len(cs.Reqs); k++ {
+			batch = append(batch, cs.Reqs[next].Encode()...)
+			next++
+		}
+		if len(batch) > 0 {
+			if err := c.Write(batch); err != nil {
+				res.Clients[0].WriteErr = err
+				break
+			}
+			settle()
+		}
+	}
+	c.StartReading()
 	c.WaitRepliesProgress(want, 10*time.Second, 300*time.Second)
 	return res.collect(f, []*rclient.Client{c})
 }
